@@ -440,13 +440,13 @@ func WalkPack(pack []byte, hashSize int) ([]Entry, error) {
 
 // RawEntry is an entry to be serialised by BuildPack.
 type RawEntry struct {
-	Type     int
-	Size     uint64 // declared size (may lie)
-	OfsBack  int    // for type 6: distance back to the base, encoded verbatim
-	BaseRef  []byte // for type 7
-	Payload  []byte // bytes to deflate (or Raw if set)
-	Raw      []byte // pre-compressed stream, used verbatim when non-nil
-	Level    int    // zlib level (0 = default)
+	Type    int
+	Size    uint64 // declared size (may lie)
+	OfsBack int    // for type 6: distance back to the base, encoded verbatim
+	BaseRef []byte // for type 7
+	Payload []byte // bytes to deflate (or Raw if set)
+	Raw     []byte // pre-compressed stream, used verbatim when non-nil
+	Level   int    // zlib level (0 = default)
 }
 
 // EncodeEntryHeader encodes the type/size header.
@@ -754,4 +754,197 @@ func ApplyDelta(base, delta []byte) ([]byte, error) {
 		return nil, fmt.Errorf("delta: produced %d bytes, header says %d", len(out), ts)
 	}
 	return out, nil
+}
+
+// DeltaStats summarises the copy instructions of one git delta.
+type DeltaStats struct {
+	Copies       int
+	MaxOffset    uint64 // largest base offset a copy starts at
+	MaxOffsetLen int    // most offset bytes carried by a copy opcode (1..4)
+	MaxCopySize  uint64
+	Size64KiBOps int // copies of exactly 0x10000 bytes (encoded with no size byte)
+	WellFormed   bool
+}
+
+// DeltaCopyStats walks the instructions of a delta (independent of go-git).
+func DeltaCopyStats(d []byte) DeltaStats {
+	var st DeltaStats
+	pos := 0
+	for k := 0; k < 2; k++ { // base size, target size
+		for {
+			if pos >= len(d) {
+				return st
+			}
+			c := d[pos]
+			pos++
+			if c&0x80 == 0 {
+				break
+			}
+		}
+	}
+	for pos < len(d) {
+		cmd := d[pos]
+		pos++
+		switch {
+		case cmd&0x80 != 0:
+			var off, sz uint64
+			n := 0
+			for k := uint(0); k < 4; k++ {
+				if cmd&(1<<k) != 0 {
+					if pos >= len(d) {
+						return st
+					}
+					off |= uint64(d[pos]) << (8 * k)
+					pos++
+					n = int(k) + 1
+				}
+			}
+			for k := uint(0); k < 3; k++ {
+				if cmd&(0x10<<k) != 0 {
+					if pos >= len(d) {
+						return st
+					}
+					sz |= uint64(d[pos]) << (8 * k)
+					pos++
+				}
+			}
+			if sz == 0 {
+				sz = 0x10000
+				st.Size64KiBOps++
+			}
+			st.Copies++
+			st.MaxOffset = max(st.MaxOffset, off)
+			st.MaxOffsetLen = max(st.MaxOffsetLen, n)
+			st.MaxCopySize = max(st.MaxCopySize, sz)
+		case cmd != 0:
+			pos += int(cmd)
+		default:
+			return st
+		}
+	}
+	st.WellFormed = pos == len(d)
+	return st
+}
+
+// PackDeltaStats folds DeltaCopyStats over every delta entry of a pack.
+func PackDeltaStats(pack []byte, hashSize int) (DeltaStats, error) {
+	es, err := WalkPack(pack, hashSize)
+	if err != nil {
+		return DeltaStats{}, err
+	}
+	var all DeltaStats
+	for _, e := range es {
+		if e.Type < 6 {
+			continue
+		}
+		s := DeltaCopyStats(e.Data)
+		all.Copies += s.Copies
+		all.Size64KiBOps += s.Size64KiBOps
+		all.MaxOffset = max(all.MaxOffset, s.MaxOffset)
+		all.MaxOffsetLen = max(all.MaxOffsetLen, s.MaxOffsetLen)
+		all.MaxCopySize = max(all.MaxCopySize, s.MaxCopySize)
+	}
+	return all, nil
+}
+
+// BigPair builds a repository holding two blobs of about 17 MiB that differ in 16 bytes
+// at offset 16.5 MiB (highly compressible content: 64-byte records with a counter), repacked so
+// that git stores one of them as a delta of the other: its copy instructions start at base
+// offsets >= 2^24 and therefore carry the fourth offset byte. Deltified reports whether git
+// really stored a delta with a 4-byte copy offset.
+type BigPair struct {
+	*Repo
+	Blob1, Blob2 string
+	Deltified    bool
+	Stats        DeltaStats
+}
+
+// BigBlob returns the two versions.
+func BigBlob(tag byte) (v1, v2 []byte) {
+	const n = 17 << 20
+	v1 = make([]byte, 0, n+64)
+	rec := []byte("record x 000000000000 .........................................\n")
+	rec[7] = tag
+	for i := 0; len(v1) < n; i++ {
+		x := i * 7919
+		for k := 20; k >= 9; k-- {
+			rec[k] = byte('0' + x%10)
+			x /= 10
+		}
+		v1 = append(v1, rec...)
+	}
+	v1 = v1[:n]
+	v2 = append([]byte{}, v1...)
+	copy(v2[16<<20+512<<10:], "SIXTEEN-BYTES-!!") // 16 bytes at 16.5 MiB
+	return v1, v2
+}
+
+// NewBigPair builds the repository (non-bare) at dir.
+func NewBigPair(g *gitx.Git, dir, format string) (*BigPair, error) {
+	v1, v2 := BigBlob('a')
+	if err := g.Init(dir, false, format); err != nil {
+		return nil, err
+	}
+	// plain plumbing (hash-object / mktree / commit-tree): fast-import would spend many seconds
+	// deltifying the second 17 MiB blob against the first
+	out := func(stdin []byte, args ...string) (string, error) {
+		res := g.RunIn(dir, stdin, args...)
+		if !res.OK() {
+			return "", fmt.Errorf("git %v: %s", args, res)
+		}
+		return strings.TrimSpace(string(res.Out)), nil
+	}
+	var ids []string
+	parent := ""
+	for k, v := range [][]byte{v1, v2} {
+		blob, err := out(v, "hash-object", "-w", "--stdin")
+		if err != nil {
+			return nil, err
+		}
+		readme, err := out([]byte("big pair\n"), "hash-object", "-w", "--stdin")
+		if err != nil {
+			return nil, err
+		}
+		tree, err := out([]byte(fmt.Sprintf("100644 blob %s\tbig.bin\n100644 blob %s\treadme\n", blob, readme)), "mktree")
+		if err != nil {
+			return nil, err
+		}
+		args := []string{"commit-tree", tree, "-m", fmt.Sprintf("v%d", k+1)}
+		if parent != "" {
+			args = append(args, "-p", parent)
+		}
+		if parent, err = out(nil, args...); err != nil {
+			return nil, err
+		}
+		ids = append(ids, parent)
+	}
+	if _, err := out(nil, "update-ref", "refs/heads/master", parent); err != nil {
+		return nil, err
+	}
+	if res := g.Run(dir, "repack", "-a", "-d", "-f", "-q", "--window=10", "--depth=10"); !res.OK() {
+		return nil, fmt.Errorf("repack: %s", res)
+	}
+	bp := &BigPair{Repo: &Repo{Dir: dir, GitDir: filepath.Join(dir, ".git"), Format: format, Commits: ids},
+		Blob1: HashObj(format, "blob", v1), Blob2: HashObj(format, "blob", v2)}
+	pf := PackFiles(bp.GitDir)
+	if len(pf) != 1 {
+		return nil, fmt.Errorf("repack left %d packs", len(pf))
+	}
+	st, err := PackDeltaStats(ReadFile(pf[0]), HashSize(format))
+	if err != nil {
+		return nil, err
+	}
+	bp.Stats = st
+	// git's own statement that one of the two is a delta of the other
+	vp := g.Run(dir, "verify-pack", "-v", strings.TrimSuffix(pf[0], ".pack")+".idx")
+	if !vp.OK() {
+		return nil, fmt.Errorf("verify-pack: %s", vp)
+	}
+	for _, ln := range strings.Split(string(vp.Out), "\n") {
+		f := strings.Fields(ln)
+		if len(f) == 7 && (f[0] == bp.Blob1 && f[6] == bp.Blob2 || f[0] == bp.Blob2 && f[6] == bp.Blob1) {
+			bp.Deltified = st.MaxOffsetLen == 4 && st.MaxOffset >= 1<<24
+		}
+	}
+	return bp, nil
 }
